@@ -252,6 +252,7 @@ const smtPrelude = `(set-option :produce-models true)
 (declare-fun strsub (Str Int Int) Str)
 (declare-fun str_of_bytes ((Array Int Int) Int Int) Str)
 (declare-fun root (Ptr) Int)
+(declare-fun mtype (Ptr) Int)
 (assert (forall ((n Int)) (! (= (root (Base n)) n) :pattern ((Base n)))))
 (assert (forall ((p Ptr) (k Int)) (! (= (root (Fld p k)) (root p)) :pattern ((Fld p k)))))
 (assert (forall ((p Ptr) (i Int)) (! (= (root (Elem p i)) (root p)) :pattern ((Elem p i)))))
